@@ -84,7 +84,7 @@ func runRaw(c *hk.Ctx, cfg hk.SrvCfg, plans []*plan) {
 	sess := rawHandshake(f)
 	envTag := fmt.Sprintf("raw:%s/postSSE=%v", cfg.Mode, cfg.PostSSE)
 	for i, pl := range plans {
-		g.add(pl)
+		rc := g.add(pl)
 		reqID := 100 + i
 		acceptSSE := i%5 != 4 // every fifth request does not accept an event stream: JSON answer, nothing else
 		hdr := map[string]string{"Accept": "application/json, text/event-stream"}
@@ -95,7 +95,18 @@ func runRaw(c *hk.Ctx, cfg hk.SrvCfg, plans []*plan) {
 			hdr[k] = v
 		}
 		body := canonS(map[string]any{"jsonrpc": "2.0", "id": reqID, "method": "tools/call", "params": map[string]any{"name": toolName, "arguments": map[string]any{"nonce": pl.Nonce}}})
-		rawJudge(c, "", cfg, envTag, pl, reqID, hdr["Accept"], f.Post(hdr, body), nil)
+		rawJudge(c, pl.FpScen, cfg, envTag, pl, reqID, hdr["Accept"], f.Post(hdr, body), nil)
+		if cfg.PostSSE && acceptSSE {
+			in := planSummary(cfg, nil, pl)
+			in["request"] = fmt.Sprintf("POST tools/call id=%d Accept=%s", reqID, hdr["Accept"])
+			judgeRefusals(c, "raw", pl.FpScen, in, pl, rc)
+			rc.mu.Lock()
+			sendErrs := rc.sendErrs
+			rc.mu.Unlock()
+			if len(sendErrs) > 0 {
+				c.Violate(hk.Violation{Fingerprint: fpOf("raw", pl.FpScen, "send-error"), What: "the sender returned an error for an encodable notification", Input: in, Observed: sendErrs[0]})
+			}
+		}
 	}
 }
 
@@ -142,18 +153,18 @@ func rawJudge(c *hk.Ctx, scen string, cfg hk.SrvCfg, envTag string, pl *plan, re
 	// ---- oracle: the stream carries every emitted notification, in order, then the answer (model-free)
 	wantN := 1
 	if isSSE {
-		wantN = len(pl.Emits) + 1
+		wantN = len(pl.wire()) + 1 // the sender refuses the unencodable ones before writing anything
 	}
 	if len(frames) != wantN {
 		c.Violate(hk.Violation{Fingerprint: fpOf("raw", scen, "frame-count"), What: "number of events on the stream differs from notifications + answer", Input: in,
 			Observed: len(frames), Expected: wantN})
 	} else {
 		if isSSE {
-			for k, e := range pl.Emits {
+			for k, e := range pl.wire() {
 				m, _ := frames[k].(map[string]any)
 				params, _ := m["params"].(map[string]any)
 				_, seq := whose(map[string]any{"extra": params})
-				if m == nil || m["method"] != e.Method || seq != k || m["id"] != nil {
+				if m == nil || m["method"] != e.Method || seq != e.Seq || m["id"] != nil {
 					c.Violate(hk.Violation{Fingerprint: fpOf("raw", scen, "frame-order"), What: "the k-th event is not the k-th emitted notification", Input: in,
 						Observed: map[string]any{"k": k, "frame": truncAny(frames[k])}})
 					break
@@ -165,7 +176,12 @@ func rawJudge(c *hk.Ctx, scen string, cfg hk.SrvCfg, envTag string, pl *plan, re
 			c.Violate(hk.Violation{Fingerprint: fpOf("raw", scen, "answer-not-last"), What: "the last event is not the answer to the request", Input: in, Observed: truncAny(frames[len(frames)-1])})
 		}
 	}
-	tags := []string{envTag, burstClass(len(pl.Emits))}
+	tags := append([]string{envTag, burstClass(len(pl.Emits))}, pl.Tags...)
+	for _, e := range pl.Emits {
+		if e.Unenc != "" {
+			tags = append(tags, "raw:unencodable:"+e.K+":"+e.Unenc)
+		}
+	}
 	// ---- oracle: ids on one stream are pairwise distinct
 	if isSSE {
 		tags = append(tags, "raw:stream")
